@@ -794,13 +794,15 @@ def names_layouts(rng, stdlib, count):
             s = std(8)
             # plain modules, packages with an ordinary submodule, a package with a stdlib-named submodule
             mods = [((s[0],), False, True), ((s[1],), False, True), ((s[2],), False, True), ((s[3],), False, True), ((s[4],), False, True),
-                    ((s[5],), True, True), ((s[5], "render"), False, True), ((s[6],), True, True), ((s[6], "inner"), True, True),
-                    ((s[6], "inner", "leaf"), False, True), ((s[7],), True, True), ((s[7], "codec"), False, True),
+                    ((s[5],), True, True), ((s[5], "render"), False, True), ((s[5], "model"), False, True), ((s[6],), True, True),
+                    ((s[6], "inner"), True, True), ((s[6], "inner", "leaf"), False, True), ((s[6], "outer"), False, True),
+                    ((s[7],), True, True), ((s[7], "codec"), False, True),
                     ((o[0],), False, False), ((o[1],), False, False), ((o[2],), True, False), ((o[2], "util"), False, False)]
         elif fam == "stdlib-nested":
-            s = std(5)
+            s = std(7)
             mods = [((o[0],), True, False), ((o[0], s[0]), False, True), ((o[0], s[1]), False, True), ((o[0], s[2]), True, True),
                     ((o[0], s[2], "part"), False, True), ((o[0], "sub"), True, False), ((o[0], "sub", s[3]), False, True),
+                    ((o[0], "sub", s[5]), False, True), ((o[0], s[6]), False, True),
                     ((o[0], "sub", "plain"), False, False), ((o[0], "peer"), False, False), ((o[1],), False, False),
                     ((o[2],), False, False), ((s[4],), False, True)]
         elif fam == "stdlib-affix":
@@ -841,6 +843,20 @@ def names_layouts(rng, stdlib, count):
     return layouts
 
 
+def component_of(n, edges, v):
+    """the strongly connected component of v, by reachability in both directions"""
+    def reach(pairs):
+        seen, todo = {v}, [v]
+        while todo:
+            x = todo.pop()
+            for a, b in pairs:
+                if a == x and b not in seen:
+                    seen.add(b)
+                    todo.append(b)
+        return seen
+    return reach(edges) & reach([(b, a) for a, b in edges])
+
+
 def names_plan(rng, mods, big):
     """Imports (a, b): the modules are dealt into rings a0 -> a1 -> .. -> a0, every ring goes through a specially named module
     and every import of a ring is a bridge of its component (losing a single one takes modules out of the cycle); acyclic
@@ -853,6 +869,9 @@ def names_plan(rng, mods, big):
     plain = [i for i in range(n) if not mods[i][2]]
     rng.shuffle(special)
     rng.shuffle(plain)
+    if rng.random() < 0.6:                            # rings inside one top-level package: its modules can import each other relatively
+        key = {t: rng.random() for t in {mods[i][0][0] for i in special}}
+        special.sort(key=lambda i: (key[mods[i][0][0]], rng.random()))
     rings = []
     while special:
         k = min(len(special), rng.choice([1, 1, 2, 2, 3]))
@@ -880,7 +899,16 @@ def names_plan(rng, mods, big):
         i, j = sorted(rng.sample(range(len(groups)), 2)) if len(groups) >= 2 else (0, 0)
         if i != j:
             edges.append((rng.choice(groups[i]), rng.choice(groups[j])))
-    return [(a, b) for a, b in edges if not below(a, b)], rings
+    edges = [(a, b) for a, b in edges if not below(a, b)]
+    # a specially named module that ended up on no cycle (a ring of a package and modules below it only) gets a cycle of two
+    # with a module that lies neither below nor above it
+    for i in range(n):
+        if mods[i][2] and len(component_of(n, edges, i)) < 2:
+            cand = [j for j in range(n) if j != i and not below(i, j) and not below(j, i)]
+            if cand:
+                j = rng.choice([c for c in cand if not mods[c][2]] or cand)
+                edges += [(i, j), (j, i)]
+    return edges, rings
 
 
 def named_module_projects(ck, rng, count):
@@ -917,6 +945,9 @@ def named_module_projects(ck, rng, count):
                 if a != i:
                     continue
                 forms = import_forms(p, is_pkg, mods[b][0])
+                rel_forms = [f for f in forms if f[0].startswith("relative")]
+                if rel_forms and (rot + j) % 3:       # two of three imports inside a package are relative
+                    forms = rel_forms
                 form, text = forms[(rot + j + k) % len(forms)]
                 st["forms"][form] = st["forms"].get(form, 0) + 1
                 lines.append(text)
@@ -944,8 +975,8 @@ def named_module_projects(ck, rng, count):
             continue
         idx = {m: i for i, m in enumerate(names)}
         oedges = [(idx[a], idx[b]) for a, b in orc["edges"]]
-        in_ring = {v for r in rings for v in r}
-        st["special_in_cycle"] += sum(1 for i in in_ring if mods[i][2])
+        st["special_in_cycle"] += sum(1 for i in range(n) if mods[i][2] and len(component_of(n, oedges, i)) >= 2)
+        st["special_modules"] = st.get("special_modules", 0) + sum(1 for m in mods if m[2])
         st["families"][fam] = st["families"].get(fam, 0) + 1
         st["stdlib_names_used"].update(c for p, _, sp in mods if sp for c in p if c in stdlib)
         for variant in ("default", "include_stdlib"):
@@ -1077,7 +1108,7 @@ def main(tier):
     nst = ck.stats.get("names") or {"forms": {}, "families": {}, "stdlib_names_used": set(), "special_in_cycle": 0}
     dist.update({"special_names_families": nst["families"], "special_names_import_forms": nst["forms"],
                  "stdlib_table_names_used_as_project_modules": len(nst["stdlib_names_used"]),
-                 "specially_named_modules_on_a_cycle": nst["special_in_cycle"]})
+                 "specially_named_modules_on_a_cycle": nst["special_in_cycle"], "specially_named_modules": nst.get("special_modules", 0)})
 
     ck.samples = [{"n": 3, "mask": 106, "edges": mask_edges(3, 106)},
                   {"modules": graphs[0]["n"], "edges": graphs[0]["edges"][:12]},
